@@ -502,6 +502,17 @@ pub fn run(ctx: &Ctx) -> Report {
             let variant = if i % 4 == 0 { 0 } else { rng.next() | 1 };
             let seqs = if rng.chance(1, 4) { (rng.below(250) as u8, rng.below(250) as u8) } else { (1, 2) };
             let c = super::c18::TlsCase { tls13: rng.bool(), with_cert: false, server_mode: 0, user: user.clone(), cmds, scripts, first_cut: if rng.bool() { rng.range(1, 80) as usize } else { 0 }, cycle: if rng.bool() { vec![] } else { vec![rng.range(1, 300) as usize] }, write_limit: usize::MAX, close_notify: true, raw_limit: None, hs_variant: variant, app_override: None, seqs, auth_reject: if reject { Some(4243) } else { None }, record_per_command: rng.bool(), write_fault: None, buffer_writes: rng.bool() };
+            // a quarter of the connections meet one transient write error (EINTR) on one of the server's
+            // writes. Either the server gives up with that I/O error (C19's business), or everything
+            // this property says holds as if nothing had happened - in particular a rejection is not
+            // reported to the backend's caller (the token) without the ERR having reached the client
+            let mut c = c;
+            let with_fault = i % 4 == 1;
+            if with_fault {
+                if let Ok(dry) = super::c18::run_tls(tm, &c) {
+                    c.write_fault = Some((rng.below(dry.world.nwrite.max(1)), 100));
+                }
+            }
             let o = match super::c18::run_tls(tm, &c) {
                 Ok(o) => o,
                 Err(e) => {
@@ -510,6 +521,13 @@ pub fn run(ctx: &Ctx) -> Report {
                 }
             };
             rep.evaluations += 1;
+            if with_fault && o.world.write_fault_hit {
+                rep.counters.inc("tls_connection_phases_with_a_transient_write_error");
+                if matches!(o.outcome, Outcome::Io { .. }) {
+                    rep.counters.inc("tls_transient_write_error_gave_up");
+                    return;
+                }
+            }
             rep.counters.class(format!("tls upgrade: {} SSLRequest, user={}, {}, depth={}", if variant == 0 { "classic" } else { "varied" }, user_class(&user), if reject { "reject" } else { "accept" }, depth));
             let d = || J::obj().set("transport", "TLS upgrade").set("sslrequest_and_response_variant", format!("{:#x}", variant)).set("sslrequest_payload", hex(&o.world.client_raw[4.min(o.world.client_raw.len())..36.min(o.world.client_raw.len())])).set("user", show(&user)).set("ids", format!("{:?}", seqs)).set("shim", if reject { "rejects" } else { "accepts" }).set("outcome", o.outcome.describe());
             if i < 1 {
